@@ -292,8 +292,20 @@ DoSize(next) ==
 -----------------------------------------------------------------------------
 (* Drivers                                                                  *)
 
+\* a spacing window that admits no whole number of rows gives an empty candidate domain (rectangular, bi_rectangle_nested,
+\* bi_rectangle_zoned_nested): the search constructor raises. Unrepaired (F23): IndexError from coordinates_domain[0].
+EmptyDomain == Mode # "RW" /\ (IF Len(cfg.lists) = 0 THEN TRUE ELSE Len(cfg.lists[1]) = 0)
+
+M_empty ==
+  /\ pc = "Start" /\ EmptyDomain
+  /\ pc' = "Done"
+  /\ outcome' = IF "F23" \in Fixed THEN Raise("ValueError", "The geometric constraints admit no borehole field")
+                                  ELSE Raise("IndexError", "list index out of range")
+  /\ UNCHANGED <<cfg, ret, dom, dlen, memo, log, live, lastSim, gfam, escape, selOuter, li, oldH, heights, calcNested, selKeys, phase>>
+  /\ UNCHANGED searchVars /\ UNCHANGED rwVars
+
 M_start ==
-  /\ pc = "Start"
+  /\ pc = "Start" /\ ~EmptyDomain
   /\ CASE Mode = "1D" ->
             /\ dom' = [i \in 1..Len(cfg.lists[1]) |-> <<1, i>>] /\ dlen' = Len(cfg.lists[1])
             /\ ret' = "M_size" /\ pc' = "S_cap" /\ phase' = "only"
@@ -561,7 +573,7 @@ Init ==
   /\ sLow = 0 /\ sHigh = 0 /\ sMid = 0 /\ eLow = 0 /\ eHigh = 0 /\ rwSel = None /\ rwBest = None
   /\ rwBestDrill = 0 /\ tk = 0 /\ nMax = 0 /\ nMin = 0 /\ nStart = 0 /\ devs = 0
 
-Next == M_start \/ SearchStep \/ B_inner \/ M_size \/ M_report
+Next == M_start \/ M_empty \/ SearchStep \/ B_inner \/ M_size \/ M_report
         \/ Z_outerdone \/ Z_loop \/ Z_after \/ Z_rec \/ Z_pick \/ Z_final
         \/ R_gen \/ R_bis \/ R_tail \/ R_one \/ R_rem \/ R_done
 
@@ -628,7 +640,7 @@ UnmetPolicyRW ==
 
 NonDegenerate ==
   /\ \A k \in DOMAIN memo : (k[2] \in {"max", "min"}) => memo[k] # 0
-  /\ Mode # "RW" => (cfg.cap = 0 \/ cfg.cap >= 2) /\ cfg.lists[1][1] = 1
+  /\ Mode # "RW" => (cfg.cap = 0 \/ cfg.cap >= 2) /\ (EmptyDomain \/ cfg.lists[1][1] = 1)
 
 OnlyValueError ==
   (Done /\ NonDegenerate /\ outcome.k = "raise") => outcome.type = "ValueError"
